@@ -272,11 +272,15 @@ class FullRun:
         steps = []
         cur = None
         applied = []
+        ended = False
         for rec in self.log:
             k = rec[0]
             if k == "mark":
-                if cur is not None:
+                if cur is not None and not ended:
+                    # another producer-level event inside the same reactor event: the timers armed when it begins
+                    # are those the previous one left
                     cur["o"]["pending"] = rec[3]
+                ended = False
                 cur = {"e": rec[1], "known": rec[2], "o": {"acts": [], "exc": "", "pending": 0, "applied": applied}}
                 applied = []
                 steps.append(cur)
@@ -290,6 +294,7 @@ class FullRun:
                 cur["o"]["exc"] = rec[1]
             elif k == "end" and cur is not None:
                 cur["o"]["pending"] = self._pending_at_end.get(len(steps), cur["o"]["pending"])
+                ended = True
         # the partition a send was given is the environment's choice, stated on its Send event
         for st in steps:
             if st["e"]["a"] == "Send":
